@@ -93,7 +93,7 @@ class C29(core.Check):
     ID = 'C29'
     GEN = ['gen_cassette']
     PROPS = 'props/C29.v'
-    MODEL_IMPORTS = ['gen.Gen_cassette', 'model.Cassette']
+    MODEL_IMPORTS = ['gen.Gen_cassette', 'model.Cassette', 'model.CassetteBits']
     QUICK_CASES = 300
     THOROUGH_CASES = 4000
     TRUSTED = ['hand model model/Cassette.v of CASDevice.open/_search, CassetteStream (open_write, write, '
@@ -105,10 +105,9 @@ class C29(core.Check):
                'NOT modelled: leader/sync/CRC/trailer and the bit and pulse layers (CASBitStream, '
                'WAVBitStream); they are exercised by the same runs (an independent CAS parser checks the '
                'record/block/CRC structure of every image) but nothing is proved about them']
-    PARTIAL = ('search-by-name theorem excludes skipping over a file whose data record starts with byte A5 '
-               '(text file of length = 164 mod 255, binary file starting with A5) or is empty (zero-length '
-               'binary file): the reader scans for the next record starting with A5 (known findings K29a, '
-               'K29b); text-mode 0x1A end-of-file truncation belongs to TextFileBase and is not part of the '
+    PARTIAL = ('search-by-name theorem excludes passing over a text/data file of length = 164 mod 255: its last '
+               'count byte is A5 and the scan for the next header takes that record for a header (known '
+               'finding K29a; B/P/M files are passed over by reading their data record, fix D29c); text-mode 0x1A end-of-file truncation belongs to TextFileBase and is not part of the '
                'model (text contents are generated without 0x1A unless read through the raw stream)')
     RULE = ('tape sessions: 1-4 files (types D A B P M; lengths dense at 0,1,k*255-2..k*255+1,164,256k+-1; '
             'written in random write() pieces; names incl. trailing blanks, 8 and >8 chars, duplicates), image '
@@ -147,7 +146,8 @@ class C29(core.Check):
         cs.append({'fmt': 'cas', 'raw': 0,
                    'files': [F(A, TM, 256, seg=4660, off=22136), F(B, TA, 300), F(C, TP, 513, seg=7), F(A, TD, 0)],
                    'reqs': [[[], [TA, TB, TP]], [A, [TD]], [[], [TM]], [C, []], [A, [TM]]]})
-        # known findings (excluded from the oracle, compared with the model): fake headers, empty record
+        # K29a (text, excluded from the oracle, compared with the model) and the D29c witnesses: a skipped
+        # B/P/M file that starts with A5 / is empty must not disturb the search
         fake = list(b'B       ') + [0] + [0] * 6
         cs.append({'fmt': 'cas', 'raw': 0, 'files': [F(A, TD, 164 - len(fake), pre=fake), F(B, TD, 5, post=[13])],
                    'reqs': [[B, [TD]], [B, [TD]]]})
@@ -157,6 +157,11 @@ class C29(core.Check):
         cs.append({'fmt': 'cas', 'raw': 0, 'files': [F(A, TM, 0, seg=1, off=2), F(B, TD, 5)],
                    'reqs': [[A, [TM]], [B, []]]})
         cs.append({'fmt': 'cas', 'raw': 0, 'files': [F(A, TM, 0, seg=1, off=2), F(B, TD, 5)], 'reqs': [[B, []]]})
+        # bit level: image bytes and the repo's bit reader against model/CassetteBits.v
+        cs.append({'fmt': 'cas', 'raw': 0, 'bits': 1, 'files': [], 'reqs': []})
+        cs.append({'fmt': 'cas', 'raw': 0, 'bits': 1,
+                   'files': [F(A, TD, 254, 9, 7), F(B, TM, 513, 0, 255, seg=1, off=2), F(C, TP, 0), F(A, TA, 0)],
+                   'reqs': [[C, []]]})
         # malformed
         cs.append({'fmt': 'cas', 'raw': 0, 'files': [F([65, 1], TD, 3), F(B, TM, 3, seg=70000), F(C, TD, 3)],
                    'reqs': [[[7], []], [C, []]]})
@@ -188,7 +193,7 @@ class C29(core.Check):
     def gen_cases(self, n):
         rng = self.rng
         hist = {'files': 0, 'text_254mod255': 0, 'text_boundary': 0, 'binary': 0, 'requests': 0,
-                'req_missing': 0, 'req_typed': 0, 'malformed': 0, 'wav': 0, 'fake_header_class': 0}
+                'req_missing': 0, 'req_typed': 0, 'malformed': 0, 'wav': 0, 'fake_header_class': 0, 'bit_level': 0}
         out = []
         n_wav = 150 if self.tier == 'thorough' else 12
         for i in range(n):
@@ -260,7 +265,11 @@ class C29(core.Check):
             if wav:
                 reqs = reqs[:3]
                 hist['wav'] += 1
-            out.append({'fmt': 'wav' if wav else 'cas', 'raw': raw, 'files': files, 'reqs': reqs})
+            case = {'fmt': 'wav' if wav else 'cas', 'raw': raw, 'files': files, 'reqs': reqs}
+            if not wav and rng.random() < 0.2:
+                case['bits'] = 1
+                hist['bit_level'] += 1
+            out.append(case)
         self.histogram = hist
         return out
 
@@ -305,6 +314,19 @@ class C29(core.Check):
                 dev.close()
                 if not wav:
                     res['structure'] = parse_cas(path)
+                    if case.get('bits'):
+                        # the image file itself and what the repo's own bit reader returns record by record
+                        res['image'] = list(open(path, 'rb').read())
+                        stream = cassette.CassetteStream(cassette.CASBitStream(path, 'r'))
+                        stream.record_num = 0
+                        try:
+                            res['bitread'] = [list(stream._read_record(256 * len(blocks)))
+                                              for blocks in res['structure'][0]]
+                        except cassette.EndOfTape:
+                            res['bitread'] = [1, 24]
+                        except cassette.CassetteIOError:
+                            res['bitread'] = [1, 57]
+                        stream.close_tape()
                 con = Console()
                 dev = cassette.CASDevice(spec, con)
                 for name, types in case['reqs']:
@@ -376,6 +398,15 @@ class C29(core.Check):
             else:
                 out += r['err']
             out += self.enc_msgs(r['msgs'])
+        if 'image' in res:
+            out += digest(res['image'])
+            br = res['bitread']
+            if br[:1] == [1] and len(br) == 2 and not isinstance(br[1], list):
+                out += br
+            else:
+                out += [0, len(br)]
+                for flat in br:
+                    out += [len(flat) // 256] + digest(flat)
         return out
 
     # ---- model
@@ -389,8 +420,11 @@ class C29(core.Check):
             fs.append('{| wf_name := %s; wf_type := %d; wf_seg := %s; wf_off := %s; wf_chunks := cut %s %s |}' % (
                 core.zl(f['name']), f['t'], core.zl([f['seg']])[1:-1], core.zl([f['off']])[1:-1], content, cuts))
         reqs = ['(%s, %s)' % (core.zl(n), core.zl(t)) for n, t in case['reqs']]
-        return '(run_case %s [%s] [%s])' % ('true' if case['fmt'] == 'cas' else 'false',
+        term = '(run_case %s [%s] [%s])' % ('true' if case['fmt'] == 'cas' else 'false',
                                              '; '.join(fs), '; '.join(reqs))
+        if case.get('bits') and case['fmt'] == 'cas':
+            term = '(%s ++ bits_case [%s])' % (term, '; '.join(fs))
+        return term
 
     def nontrivial(self, case, out):
         return any(r['ok'] for r in self._cached(case)['reads'])
@@ -398,10 +432,9 @@ class C29(core.Check):
     # ---- property oracle (no Coq model involved)
     @staticmethod
     def in_excluded_class(t, data):
-        """Files the reader cannot skip over reliably (known findings K29a/K29b)."""
-        if t in TEXT:
-            return len(data) % 255 == 164          # final record's count byte is A5
-        return len(data) == 0 or data[0] == MAGIC
+        """Files the reader cannot pass over reliably (known finding K29a): text/data files whose last
+        count byte is A5; the scan for the next header takes that record for a header."""
+        return t in TEXT and len(data) % 255 == 164
 
     def oracle(self, case, out):
         res = self._cached(case)
@@ -484,23 +517,18 @@ class C29(core.Check):
                     c['files'][i]['cuts'] = []
                     yield c
 
-    # ---- known findings K29a (fake header) / K29b (empty or FF-run record breaks the skip)
+    # ---- known finding K29a (a text file whose last count byte is A5 looks like a header to the scan)
     def known_match(self, finding, case, out):
-        return False      # the excluded classes never reach the violation list (oracle returns None)
+        return False      # the excluded class never reaches the violation list (oracle returns None)
 
     def known_rerun(self, finding):
         F = self.F
         if finding.get('id') == 'K29a':
             fake = list(b'B       ') + [0] + [0] * 6
-            case = {'fmt': 'cas', 'raw': 0, 'files': [F([65], TM, 30, pre=[MAGIC] + fake), F([66], TD, 5)],
+            case = {'fmt': 'cas', 'raw': 0, 'files': [F([65], TD, 164 - len(fake), pre=fake), F([66], TD, 5)],
                     'reqs': [[[66], []]]}
             r = self._run(case)['reads'][0]
             return bool(r['ok']) and r['data'] != self.content(case, case['files'][1])
-        if finding.get('id') == 'K29b':
-            case = {'fmt': 'cas', 'raw': 0, 'files': [F([65], TM, 0, seg=1, off=2), F([66], TD, 5)],
-                    'reqs': [[[66], []]]}
-            r = self._run(case)['reads'][0]
-            return not r['ok'] and r['err'] == [1, 57]
         return False
 
 
